@@ -54,6 +54,20 @@ def _samples(rng, ct, depth, cls, ncolors):
                 px[-1] = rng.choice([0, mx, mx])
             return tuple(px)
         return f
+    if cls == "nearalpha":       # alpha one step (or one byte) away from fully opaque / fully transparent: 0xFFxx, 0x00xx, 254, 1
+        kind = rng.choice(["opaque", "opaque", "transparent", "both"])
+
+        def f():
+            px = [rnd() for _ in range(ch)]
+            if ct in (4, 6):
+                hi = kind == "opaque" or (kind == "both" and rng.random() < 0.5)
+                if depth == 16:
+                    lo = rng.choice([0xFF, 0xFF, 0xFE, 0x00, 0x25, rng.randrange(256)])
+                    px[-1] = (0xFF00 | lo) if hi else rng.choice([0, 0, 1, 0x00FF, rng.randrange(256)])
+                else:
+                    px[-1] = rng.choice([255, 255, 254]) if hi else rng.choice([0, 0, 1])
+            return tuple(px)
+        return f
     if cls == "binalpha_gray":   # opaque pixels are shades of gray (uses up tRNS candidates)
         def f():
             v = rng.randrange(256)
@@ -97,7 +111,7 @@ def _samples(rng, ct, depth, cls, ncolors):
     raise ValueError(cls)
 
 
-CLASSES = ["random", "hilo", "gray", "opaque", "binalpha", "binalpha_gray", "bitrep", "fewcolors", "banded_key"]
+CLASSES = ["random", "hilo", "gray", "opaque", "binalpha", "binalpha_gray", "bitrep", "fewcolors", "banded_key", "nearalpha"]
 
 
 def gen(rng, ct, depth, w, h, il, cls, key_mode="none", ncolors=None):
